@@ -16,7 +16,8 @@ UT = 'spatialpandas/utils.py'
 RT = 'spatialpandas/spatialindex/rtree.py'
 HC = 'spatialpandas/spatialindex/hilbert_curve.py'
 
-HENC = z3.Function('HENC', z3.IntSort(), z3.IntSort(), z3.IntSort(), z3.IntSort())   # (p, x, y) -> distance
+from .c07_vector import ENC
+HENC = ENC[2]   # (p, x, y) -> distance
 
 
 def cell_of(v, lo, hi, n):
@@ -42,28 +43,12 @@ def register(reg):
                      [('vals', Arr('float')), ('val_range', Tup(Flt(finite=True), Flt(finite=True))), ('n', Int())],
                      returns=Arr('int', 'int64'), requires=d2c_req, ensures=d2c_ens, props=P))
 
-    # assumed math-mode view of the C07 function (proved there in bit-vector semantics)
-    def dfc_ens(c, r):
-        return [('length', r.n == c.coords.shape[0]),
-                ('rows', forall('int', lambda k: Implies(And(k >= 0, k < r.n), And(
-                    r[k] == SInt(HENC(c.p.z(), c.coords[k, 0].z(), c.coords[k, 1].z())),
-                    r[k] >= 0, r[k] < pow2(2 * c.p)))))]
-
-    reg.add(Contract(HC + '::distances_from_coordinates', [('p', Int()), ('coords', Arr('int', 'int64', ndim=2, cols=2))],
-                     returns=Arr('int', 'int64'),
-                     requires=lambda c: [('p-range', And(c.p >= 1, c.p <= 31)),
-                                         ('in-grid', forall('int', lambda k: Implies(
-                                             And(k >= 0, k < c.coords.shape[0]),
-                                             And(c.coords[k, 0] >= 0, c.coords[k, 0] < pow2(c.p),
-                                                 c.coords[k, 1] >= 0, c.coords[k, 1] < pow2(c.p)))))],
-                     ensures=dfc_ens, trusted=True,
-                     note='(math-mode view of the function verified under C07 in bit-vector semantics: HENC(p,x,y) is '
-                          'ENC_p,2(x,y); result in [0, 4^p))'))
+    # distances_from_coordinates: proved in c07_vector (row k = the scalar encoder of row k), HENC = its n=2 view
 
     # _distances_from_bounds(bounds, total_bounds, p) for 2-d boxes
     def dfb_req(c):
         tb = c.total_bounds
-        return [('p-range', And(c.p >= 1, c.p <= 31)), ('pow2', And(pow2(c.p) >= 2, pow2(2 * c.p) == pow2(c.p) * pow2(c.p)))]
+        return [('p-range', And(c.p >= 1, c.p <= 31)), ('pow2', And(pow2(c.p) >= 2, pow2(c.p) <= 2 ** 31, pow2(2 * c.p) == pow2(c.p) * pow2(c.p)))]
 
     def dfb_ens(c, r):
         tb = c.total_bounds
